@@ -1,5 +1,6 @@
 import LhasaV.Driver.Hex
 import LhasaV.Model.Header
+import LhasaV.Spec.Integrity
 namespace LhasaV.Driver
 open LhasaV LhasaV.Header
 
@@ -22,6 +23,9 @@ def opHeader : List String → Option String
       | .ok (h, rest) => some (dumpHdr h ++ s!" rest={rest.length}")
       | .fail => some "fail"
       | .fault w => some ("FAULT " ++ w)
+  | ["integ", hex] => do
+      let bs ← parseHex hex
+      some (if Spec.Integrity.ok bs.toList then "1" else "0")
   | ["collapse", hex] => do
       let bs ← parseHex hex
       some (toHexL (PathFix.collapse (cstr bs.toList)))
